@@ -63,7 +63,7 @@ pub struct Watch {
 }
 
 const LOG_CAP: usize = 256;
-const WATCH_CAP: usize = 64;
+const WATCH_CAP: usize = 256;
 
 struct State {
     table: [Ent; CAP],
